@@ -207,6 +207,33 @@ func (p Path) truthTable(nodes []*Node) map[string][]string {
 	return tt
 }
 
+// sameTruth: every filter script of the path has the same truth value on every node of the tree held in
+// the representation as on the simple form.
+func (p Path) sameTruth(nodes []*Node, r Rep) bool {
+	for i := range p {
+		f := &p[i]
+		if f.Kind != 'f' {
+			continue
+		}
+		if f.filt == nil {
+			f.filt = jp.MustNewFilter("[?(" + f.Script + ")]")
+		}
+		for _, n := range nodes {
+			v, ok := n.build(r)
+			if !ok {
+				v = n.simple()
+				if r == repGen {
+					v = n.genNode()
+				}
+			}
+			if matchSafe(f.filt, v) != matchSafe(f.filt, n.simple()) {
+				return false
+			}
+		}
+	}
+	return true
+}
+
 func matchSafe(f *jp.Filter, v any) (ok bool) {
 	defer func() {
 		if r := recover(); r != nil {
